@@ -248,8 +248,99 @@ def pdf_task(c):
                                  rel=[rel15(float(a), float(b)) for a, b in zip(v, rf)] if shapeok else [],
                                  sign=[int(np.sign(a)) if math.isfinite(a) else -1 for a in v]))
     nz = int(np.sum(ref > 0)) + int(np.sum(refint > 0))
-    return [dict(rec=rec, key="pdf " + model_key(c), nontrivial=nz > 0 and M.nontrivial_dependence(model._verif),
-                 case=c)]
+    out = [dict(rec=rec, key="pdf " + model_key(c), nontrivial=nz > 0 and M.nontrivial_dependence(model._verif),
+                case=c)]
+    if c.get("kept"):
+        out.append(dict(rec=kept_record(model, P, ref, Pint, refint), key="pdf-kept one-point-at-a-time " + model_key(c),
+                        nontrivial=len({float(v) for v in ref if v > 0}) >= 2, case=c, kept="pdf-kept"))
+    return out
+
+
+# ---- one point at a time, every returned array kept --------------------------------------------
+
+KEPT_SPELLINGS = [("kept_float_row", lambda p: np.array(p, dtype=float), False),
+                  ("kept_float_list", lambda p: [float(v) for v in p], False),
+                  ("kept_one_row_array", lambda p: np.array([p], dtype=float), False),
+                  ("kept_int_list", lambda p: [int(v) for v in p], True)]
+
+
+def _read_kept(name, isint, objs, refs, now):
+    """read the objects the calls returned (kept as returned) AFTER all evaluations"""
+    arrs = [np.asarray(o) for o in objs]
+    shapeok = all(a.ndim == 1 and a.shape[0] == 1 for a in arrs)
+    vals = [float(np.asarray(a, dtype=float).reshape(-1)[0]) for a in arrs] if shapeok else []
+    return dict(kind=name, n=len(refs), isint=isint, shapeok=bool(shapeok),
+                rel=[rel15(a, float(b)) for a, b in zip(vals, refs)],
+                relnow=[rel15(a, float(b)) for a, b in zip(now, refs)],
+                sign=[int(np.sign(a)) if math.isfinite(a) else -1 for a in vals])
+
+
+def kept_record(model, P, ref, Pint, refint):
+    """model.pdf with ONE point per call (row vector, list, (1, n_dim) array, int list); whatever a call
+    returns is kept exactly as returned -- not copied, not indexed, not converted to float -- until every
+    point of every spelling has been evaluated, as a caller does who collects [model.pdf(p) for p in points].
+    rel = deviation of the kept values read at the end, relnow = of a float taken right after the call"""
+    rec = dict(kind="pdf", exc="", kinds=[])
+    held = []
+    try:
+        with warnings.catch_warnings():
+            warnings.simplefilter("ignore")
+            for name, spell, isint in KEPT_SPELLINGS:
+                src, rf = (Pint, refint) if isint else (P, ref)
+                objs, now = [], []
+                for k in range(len(src)):
+                    objs.append(model.pdf(spell(src[k])))
+                    now.append(float(np.asarray(objs[-1], dtype=float).reshape(-1)[0]))
+                held.append((name, isint, objs, rf, now))
+            for name, isint, objs, rf, now in held:
+                rec["kinds"].append(_read_kept(name, isint, objs, rf, now))
+    except Exception as e:  # noqa
+        rec["exc"] = f"kept: {type(e).__name__}: {e}"[:200]
+    return rec
+
+
+def kept_interleaved_task(c):
+    """three single-point pdf calls (row vector, list, (1, n_dim) array) whose results are kept, with a
+    marginal_pdf / marginal_cdf / cdf call on the same model between the first and the second (and, for the
+    fast marginal_pdf, after the third): those evaluate the joint density point by point themselves.  The
+    kept values are read at the end; the interleaved call is judged as the integral it is."""
+    model = get_model(c)
+    other = get_model(c)                      # point selection and references on a separate object
+    pc = Pieces(other)
+    P = np.array([point_at(pc, lv) for lv in c["levels"]], dtype=float)
+    ref = ref_product(other, P)
+    what, dim = c["what"], 1
+    t0 = time.time()
+    rec = dict(kind="pdf", exc="", kinds=[])
+    out = []
+
+    def between(x):
+        if what == "cdf":
+            return float(np.asarray(model.cdf([list(x)])).reshape(-1)[0]), pc.joint_cdf(list(x))
+        val = float(np.asarray(getattr(model, what)(np.array([x[dim]]), dim)).reshape(-1)[0])
+        return val, pc.marginal(dim, float(x[dim]), what == "marginal_cdf")
+    try:
+        with warnings.catch_warnings():
+            warnings.simplefilter("ignore")
+            objs, now, ints = [], [], []
+            for k, (name, spell, isint) in enumerate(KEPT_SPELLINGS[:3]):
+                objs.append(model.pdf(spell(P[k])))
+                now.append(float(np.asarray(objs[-1], dtype=float).reshape(-1)[0]))
+                if k == 0 or (k == 2 and what == "marginal_pdf"):
+                    ints.append(between(P[(k + 1) % 3]))
+            for k, (name, spell, isint) in enumerate(KEPT_SPELLINGS[:3]):
+                rec["kinds"].append(_read_kept(f"{name} then {what}", False, [objs[k]], ref[k:k + 1], now[k:k + 1]))
+        for val, rf in ints:
+            out.append(dict(rec=_int_rec(what, val, rf), key=f"{what} dim={dim} between kept single-point pdf calls {model_key(c)}",
+                            nontrivial=rf > 0, case=c))
+    except Machinery:
+        raise
+    except Exception as e:  # noqa
+        rec["exc"] = f"kept/{what}: {type(e).__name__}: {e}"[:200]
+    out.insert(0, dict(rec=rec, key=f"pdf-kept single points with {what} in between levels={c['levels']} {model_key(c)}",
+                       nontrivial=len({float(v) for v in ref if v > 0}) >= 2, case=c, kept="pdf-kept/interleaved",
+                       secs=round(time.time() - t0, 1)))
+    return out
 
 
 def boundary_description(rng, variant):
@@ -731,7 +822,7 @@ def dim_alias_task(c):
 
 
 def run_task(c):
-    return {"pdf_boundary": pdf_boundary_task, "refill_history": refill_history_task, "dim_alias": dim_alias_task, "eval_history": eval_history_task, "pdf": pdf_task, "integral": integral_task, "icdf": icdf_task,
+    return {"kept_interleaved": kept_interleaved_task, "pdf_boundary": pdf_boundary_task, "refill_history": refill_history_task, "dim_alias": dim_alias_task, "eval_history": eval_history_task, "pdf": pdf_task, "integral": integral_task, "icdf": icdf_task,
             "icdf_history": icdf_history_task}[c["task"]](c)
 
 
@@ -755,12 +846,13 @@ def make_tasks(ctx, cfgs):
 
     pdf_tasks, slow = [], []
     by_n = {n: [c for c in cfgs if c["n_dim"] == n] for n in (2, 3)}
+    # kept=True: the same points also one at a time with every returned array kept until all are evaluated
     for rep in range(ctx.pick(4, 12)):
         for cfg in by_n[2]:
-            pdf_tasks.append(dict(base(cfg), task="pdf", m=ctx.pick(9, 30)))
+            pdf_tasks.append(dict(base(cfg), task="pdf", m=ctx.pick(9, 30), kept=(rep % 2 == 0)))
     for rep in range(ctx.pick(1, 3)):
-        for cfg in by_n[3]:
-            pdf_tasks.append(dict(base(cfg), task="pdf", m=ctx.pick(9, 30)))
+        for idx, cfg in enumerate(by_n[3]):
+            pdf_tasks.append(dict(base(cfg), task="pdf", m=ctx.pick(9, 30), kept=((idx + rep + ctx.seed) % ctx.pick(4, 2) == 0)))
     for j in range(ctx.pick(24, 96)):
         sd = int(rng.integers(1, 2**31 - 1))
         d_ = boundary_description(np.random.default_rng(sd), j)
@@ -854,6 +946,13 @@ def make_tasks(ctx, cfgs):
     for k in range(ctx.pick(1, 3)):
         slow.append(dict(task="icdf_history", how="refit", dim=1, ps=[0.25, 0.5, 0.75], n_dim=2, cond=[None, 0],
                          sh=[0, 4], families=["weibull", "lognormal"], seed=ctx.seed + 11 + k))
+    # single-point pdf results kept across a marginal_pdf / marginal_cdf / cdf call on the same model (one nquad
+    # result each: a handful)
+    for k in range(ctx.pick(4, 12)):
+        cfg = c2d[(k * 3 + 1 + ctx.seed) % len(c2d)]
+        slow.append(dict(base(cfg, smooth=True), task="kept_interleaved",
+                         what=["marginal_pdf", "cdf", "marginal_pdf", "marginal_cdf"][k % 4],
+                         levels=[[0.5, 0.5], [0.8, 0.3], [0.2, 0.9]] if k % 2 == 0 else [[0.9, 0.6], [0.3, 0.4], [0.6, 0.85]]))
     # named deterministic cases (stable keys)
     nb = dict(n_dim=2, cond=[None, 0], sh=[0, 2], families=["lognormal", "lognormal"], seed=0, smooth=False,
               named="narrow-conditioning-variable")
@@ -923,6 +1022,13 @@ def selftest(ctx, recs, failing):
     g = copy.deepcopy(good_pdf); k = next(k for k in g["kinds"] if k["isint"]); k["rel"][0] = -BIG; muts.append(("KindsAgree", g))
     g = copy.deepcopy(good_pdf); g["kinds"][2]["sign"][0] = -1; muts.append(("NonNeg", g))
     g = copy.deepcopy(good_pdf); g["kinds"][0]["shapeok"] = False; muts.append(("ResultShape", g))
+    good_kept = next((r for r in recs if r["kind"] == "pdf" and r["id"] not in failing and not r["exc"]
+                      and r["kinds"][0]["kind"] == "kept_float_row" and len(r["kinds"][0]["rel"]) >= 2), None)
+    if good_kept is None:
+        raise Machinery("selftest: no accepted record of kept single-point results")
+    # every kept value has become the density of the point evaluated last
+    g = copy.deepcopy(good_kept); g["kinds"][0]["rel"][0] = 731000000; muts.append(("Factorises", g))
+    g = copy.deepcopy(good_kept); g["kinds"][3]["rel"][0] = -BIG; muts.append(("KindsAgree", g))
     if good_int["cdf"]:
         g = copy.deepcopy(good_int["cdf"]); g["val"] += 5000; muts.append(("CdfMatches", g))
         g = copy.deepcopy(good_int["cdf"]); g["val"] = 0; g["isint"] = True; muts.append(("KindsAgree", g))
@@ -972,7 +1078,10 @@ def run(ctx):
     ctx.rule = ("configurations (n_dim <= 3, structure, shape classes) enumerated by TLC from spec/Rosenblatt.tla, "
                 "concretised over the 5 non-negative families with seeded admissible parameters; pdf: every configuration "
                 "(2-D x4/x12, 3-D x1/x3), 9/30 points "
-                "per model (bulk, tails, below support, integer-valued) in 8 input kinds; integrals: conditional 2-D "
+                "per model (bulk, tails, below support, integer-valued) in 8 input kinds; every other 2-D and every "
+                "4th/2nd 3-D model also ONE POINT PER CALL (row vector, list, (1, n_dim) array, int list) with every "
+                "returned array kept as returned until all points of all spellings are evaluated, and 4/12 models with a "
+                "marginal_pdf / marginal_cdf / cdf call between kept single-point calls; integrals: conditional 2-D "
                 "models (and independent ones) at 2-4 probability-level points, 3-D marginal_pdf of dimensions 1 "
                 "and 2 (thorough also two 3-D cdf / marginal_cdf calls); marginal_pdf / marginal_cdf / marginal_icdf with the variable "
                 "addressed from the end (dim = -k, python int and numpy integer; 2-D and 3-D) against the same call "
@@ -1028,6 +1137,8 @@ def run(ctx):
             k = "alias/" + r["what"]
         if o.get("history"):
             k = ("icdf/" if r["kind"] == "icdf" else "eval-history/") + o["history"]
+        if o.get("kept"):
+            k = o["kept"]
         kinds[k] = kinds.get(k, 0) + 1
     ctx.notes["records_by_kind"] = kinds
     ctx.notes["integral_calls_dropped_for_time"] = dropped
@@ -1038,11 +1149,15 @@ def run(ctx):
     missing = [k for k in ("pdf", "cdf", "marginal_pdf", "marginal_cdf", "mass", "icdf", "marginal_pdf/int",
                            "icdf/after-parameter-change", "icdf/after-refit", "eval-history/after-modification", "eval-history/after-refill",
                            "alias/marginal_pdf", "alias/marginal_cdf", "alias/marginal_icdf",
-                           "alias/marginal_pdf-out-of-range")
+                           "alias/marginal_pdf-out-of-range", "pdf-kept", "pdf-kept/interleaved")
                if not kinds.get(k)]
     ctx.notes["kinds_without_a_record"] = missing
     nmoved = sum(1 for r, o in zip(recs, meta) if r["kind"] == "history" and o.get("history") == "after-modification"
                  and o["nontrivial"])
+    nkept = sum(1 for o in meta if o.get("kept") == "pdf-kept" and o["nontrivial"])
+    ctx.notes["models_evaluated_one_point_at_a_time_with_all_results_kept"] = nkept
+    if nkept < 20:
+        raise Machinery(f"vacuous: only {nkept} models were evaluated point by point with the results kept")
     nbound = sum(1 for o in meta if o.get("boundary") and o["nontrivial"])
     ctx.notes["pdf_boundary_models_with_zero_times_unbounded_points"] = nbound
     if nbound < 8:
